@@ -86,6 +86,12 @@ class Program:
         """'cm_colors.core.optimisation:_strategy_strict' -> (FunctionDef, ModuleInfo)"""
         mod, local = qual.split(':')
         m = self.modules[mod]
+        if '.<locals>.' in local:
+            outer, inner = local.split('.<locals>.', 1)
+            if outer not in m.funcs: raise KeyError(f'function {qual} not found in working tree')
+            for n in ast.walk(m.funcs[outer]):
+                if isinstance(n, ast.FunctionDef) and n.name == inner and n is not m.funcs[outer]: return n, m
+            raise KeyError(f'nested function {qual} not found in working tree')
         if local not in m.funcs:
             raise KeyError(f'function {qual} not found in working tree')
         return m.funcs[local], m
